@@ -344,7 +344,13 @@ class Sched:
 
 
 ANCHOR_PREFIXES = ("utils/mutation.py:__new__", "utils/mutation.py:__enter__", "utils/mutation.py:__exit__",
-                   "utils/mutation.py:protect_via_deepcopy", "spec_class.py:")
+                   "utils/mutation.py:protect_via_deepcopy", "spec_class.py:", "methods/base.py:__get__")
+# the mechanisms the two thread properties are anchored in: each gets an equal share of the mechanism-directed targets,
+# however few line events it contributes to a trace
+MECHANISMS = ("utils/mutation.py:__new__", "utils/mutation.py:__enter__", "utils/mutation.py:__exit__",
+              "utils/mutation.py:protect_via_deepcopy", "spec_class.py:__get__", "spec_class.py:__new__",
+              "spec_class.py:bootstrapper", "spec_class.py:bootstrap", "spec_class.py:build_attr_spec",
+              "spec_class.py:for_class", "spec_class.py:register_method", "methods/base.py:__get__")
 
 
 def make_policy(rng, shape, seq_steps, hot_steps=None, n_threads=2):
@@ -372,9 +378,32 @@ def make_policy(rng, shape, seq_steps, hot_steps=None, n_threads=2):
         anchored = [e for e in entries if e[1].startswith(ANCHOR_PREFIXES)]
         syncs = [e for e in entries if e[1].startswith("sync:")]
         targets = set()
+        # rarely visited anchored lines (a two-line window in a descriptor's __get__, say) drown among the hundreds of
+        # bootstrap lines when entries are drawn uniformly: half of the anchored picks draw a distinct LINE uniformly
+        first_visits = sorted({(t, site) for t, site, n in anchored if n == 1})
+        by_mech = {}
+        for e in entries:
+            for m in MECHANISMS:
+                if e[1].startswith(m + ":") or e[1] == m:
+                    by_mech.setdefault(m, []).append(e)
+                    break
+        mechs = sorted(by_mech)
         for _ in range(d):
+            if mechs and rng.random() < 0.35:
+                pool = by_mech[mechs[rng.randrange(len(mechs))]]
+                lines = sorted({site for _t, site, _n in pool})
+                site = lines[rng.randrange(len(lines))]
+                cands = [e for e in pool if e[1] == site]
+                t, site, n = cands[rng.randrange(len(cands))]
+                targets.add((None if rng.random() < 0.5 else t, site, n))
+                continue
             u = rng.random()
             pool = syncs if (syncs and u < 0.45) else (anchored if (anchored and u < 0.75) else entries)
+            if pool is anchored and first_visits and rng.random() < 0.5:
+                t, site = first_visits[rng.randrange(len(first_visits))]
+                n = 1
+                targets.add((None if rng.random() < 0.5 else t, site, n))
+                continue
             if pool:
                 t, site, n = pool[rng.randrange(len(pool))]
                 # any thread: a thread that ran second in the sequential trace may never have reached this line there
